@@ -548,6 +548,8 @@ class Sandbox:
         # And do the patches
         self._start_patches(
             patch.dict('sys.modules', overridden_modules),
+            # ... and should the student rebind the table itself (sys.modules = {}), put it back too
+            patch.object(sys, 'modules', sys.modules),
             patch('sys.stdout', self._current_stdout[-1]),
             patch('time.sleep', return_value=None),
         )
